@@ -152,6 +152,8 @@ fn p_c16() -> Profile {
     p.huge_fees = true;
     p.sweep = true;
     p.extreme_periods = true;
+    p.identity_changes = true;
+    p.w_config = 6;
     p.w_query = 6;
     p.w_owner = 3;
     p.w_validator = 2;
@@ -271,6 +273,7 @@ pub fn check_history(prop: &str, thorough: bool, seed: u64) -> Option<Report> {
         }
         "C16" => {
             rep.absorb(crate::props_extra::run_hostile(if thorough { 200_000 } else { 3000 }, seed, &spec.profile));
+            rep.absorb(crate::props_extra::run_treasury_hostile(if thorough { 1_000_000 } else { 20_000 }, seed));
             rep.assumptions.push("hostile part: 5-40 single calls (reply with unknown ids / undecodable data, stray sudo, every execute variant with extreme arguments and fund sets from 10 kinds of sender, all queries with extreme cursors, migrate on arbitrary stored versions, byte-mutated JSON into every message type) on copies of a reached state; resumed totals kept inside the stated rate domain".into());
         }
         "C17" => {
